@@ -233,6 +233,49 @@ TABLE.update({
         "3/C10"),
 })
 
+TABLE.update({
+    "C13": (
+        True, MC,
+        "explicit-state BFS to fix-point over mapping-operation / address / "
+        "move histories on the real ByteInterval, dict shadow + scan oracle",
+        "All histories (fix-point, ~7.5k states) of item set / delete, pop "
+        "with and without default, popitem, setdefault, update from a dict "
+        "and from pairs, clear, whole-mapping assignment (from a dict, from "
+        "another interval's mapping and from itself), interval address "
+        "{None,0,2} and size {0,2,4} edits, interval moves between sections "
+        "and out, on keys {0,1,3} (thorough: + 2^64-1, 3 expressions incl. "
+        "two equal-but-distinct objects), from empty, populated and loaded "
+        "initial states. Every state is probed with points -1..8 and 11 "
+        "ranges (stepped ranges starting below, at and inside the interval, "
+        "empty and reversed): on the interval the (interval, offset, "
+        "expression) triples must equal the scan in increasing offset order "
+        "(nothing without an address), on section / module / IR Must <= R "
+        "<= May with each triple once.",
+        "Trusted: dict shadow and scan oracle.",
+        "3/C13"),
+    "C16": (
+        True, MC,
+        "explicit-state BFS to fix-point; every mutating collection call is "
+        "executed on the real wrapper and on a built-in list/set/dict shadow "
+        "(refinement check), every state probed with the non-mutating calls",
+        "The forest exploration of C03/C04 (module list: append, insert, "
+        "extend, +=, item / slice / extended-slice assignment and deletion, "
+        "pop, remove, clear, reverse with members, non-members, duplicates "
+        "and modules owned by another IR; five node sets: add, discard, "
+        "remove, pop, clear, update with 0-2 iterables, |=, -=, ^=, &=) with "
+        "the refinement oracle: same exception class and return value as the "
+        "built-in, resulting list a duplicate-free subsequence of the "
+        "built-in result, failed operations leave a consistent forest. Every "
+        "state is additionally probed with |, &, -, ^ and their reflected "
+        "forms, ==, !=, <=, <, >=, >, isdisjoint with plain sets on either "
+        "side, len, in, iteration, indexing, slicing (plain list results), "
+        "index, count, reversed. The symexpr exploration adds the full "
+        "mutable-mapping interface of symbolic_expressions against dict "
+        "(order = offset order).",
+        "Trusted: built-in list/set/dict as the specification; Forest model.",
+        "3/C16"),
+})
+
 PENDING = [
     "C01", "C02", "C03", "C04", "C05", "C06", "C07", "C08", "C09", "C10",
     "C11", "C12", "C13", "C14", "C16", "C17", "C18", "C19",
